@@ -450,6 +450,14 @@ class Interp:
                     elif b.kind == "const" and b.val in (True, False) and isinstance(b.val, bool) and a.kind != "const":
                         if a.kind == "obj" or (a.truth is True and b.val is False) or (a.truth is False and b.val is True):
                             known = False
+                    if known is None and a.kind == "unk" and b.kind == "unk" and ((a.sym and a.sym == b.sym and a.sym.startswith("g:"))
+                                                                                  or (not a.sym and not b.sym and len(a.tags) == 1 and a.tags == b.tags and next(iter(a.tags)).startswith("global:"))):
+                        # the same module-level object read twice (a sentinel compared with itself)
+                        known = True
+                        if isinstance(node.ops[0], ast.IsNot):
+                            known = False
+                        out.append((s, known))
+                        continue
                     if known is None:
                         k = self.rule.compare(self, s, node, a, b)
                         if k is not None:
